@@ -6,6 +6,7 @@ package gatedrv
 
 import (
 	"context"
+	"errors"
 	"database/sql"
 	"database/sql/driver"
 	"strings"
@@ -24,6 +25,36 @@ func Register() {
 }
 
 type ctxKey struct{}
+type faultKey struct{}
+
+// Faulter fails ONE statement boundary of the call whose context carries it: the At-th Exec / Query / Commit the call
+// issues returns ErrInjected instead of running (a failed Commit rolls the transaction back, as a real one would).
+type Faulter struct {
+	At    int
+	n     int
+	Fired string // what was failed ("" = the call issued fewer statements than At)
+}
+
+var ErrInjected = errors.New("injected SQL driver failure (disk I/O error)")
+
+func WithFault(ctx context.Context, f *Faulter) context.Context { return context.WithValue(ctx, faultKey{}, f) }
+
+func faultOf(ctx context.Context) *Faulter {
+	f, _ := ctx.Value(faultKey{}).(*Faulter)
+	return f
+}
+
+func (f *Faulter) hit(what string) bool {
+	if f == nil {
+		return false
+	}
+	f.n++
+	if f.n == f.At {
+		f.Fired = what
+		return true
+	}
+	return false
+}
 
 // OnEvent, when set, is called at every statement boundary of every connection of this driver:
 // before and after each Exec / Query, before and after each Commit (kind = "pre" | "post"). The crash family
@@ -117,6 +148,9 @@ func (c *conn) ExecContext(ctx context.Context, query string, args []driver.Name
 	if g != nil {
 		cls = g.before()
 	}
+	if faultOf(ctx).hit("exec " + firstWord(query)) {
+		return nil, ErrInjected
+	}
 	event("pre", query)
 	res, err := c.Conn.(driver.ExecerContext).ExecContext(ctx, query, args)
 	event("post", query)
@@ -135,6 +169,9 @@ func (c *conn) QueryContext(ctx context.Context, query string, args []driver.Nam
 	cls := false
 	if g != nil {
 		cls = g.before()
+	}
+	if faultOf(ctx).hit("query " + firstWord(query)) {
+		return nil, ErrInjected
 	}
 	event("pre", query)
 	rows, err := c.Conn.(driver.QueryerContext).QueryContext(ctx, query, args)
@@ -163,12 +200,21 @@ func (c *conn) BeginTx(ctx context.Context, opts driver.TxOptions) (driver.Tx, e
 		g = &Gate{} // no client gate: the wrapper only reports the commit boundaries
 	}
 	g.inTx = true
-	return &tx{Tx: t, g: g}, nil
+	return &tx{Tx: t, g: g, f: faultOf(ctx)}, nil
+}
+
+func firstWord(q string) string {
+	f := strings.Fields(q)
+	if len(f) == 0 {
+		return ""
+	}
+	return strings.ToUpper(f[0])
 }
 
 type tx struct {
 	driver.Tx
 	g *Gate
+	f *Faulter
 }
 
 func (t *tx) end() {
@@ -180,6 +226,11 @@ func (t *tx) end() {
 }
 
 func (t *tx) Commit() error {
+	if t.f.hit("commit") {
+		t.Tx.Rollback()
+		t.end()
+		return ErrInjected
+	}
 	event("pre", "COMMIT")
 	err := t.Tx.Commit()
 	event("post", "COMMIT")
